@@ -27,7 +27,7 @@ Nth(T, N, p, q) ==
   /\ PathPrefix(q, p)
   /\ LET po   == PreOrder(Sub(T, q))
          same == SelectSeq(po, LAMBDA r : Label(Sub(T, q \o r)) = Label(Sub(T, p)))
-     IN Len(same) >= N /\ q \o same[N] = p
+     IN N >= 1 /\ Len(same) >= N /\ q \o same[N] = p
 
 (* level(PRED, NT, node_1, node_2) -- the only definition is the comment   *)
 (* in the implementation: there is a common prefix of both paths pointing  *)
